@@ -13,7 +13,7 @@ Local Open Scope R_scope.
 (** F-C07d: [F = 0*f; F.oracle(x)] with [f] not yet evaluated at [x]: classification runs on the unpruned
     [{f: 0}] ("f needs gradient and value"), two fresh leaves are recorded for the ZERO function. *)
 Definition ops_zero_scaling : list op :=
-  [NewPoint; NewLeaf true; Combine [(0%nat, 0%Q)]; Oracle 1%nat [(0%nat, 1%Q)]].
+  [NewPoint; NewLeaf true; Combine [(0%nat, 0%Q)]; Oracle 1%nat (PVar 0)].
 
 (** F-C07c: [F = f - f; F.stationary_point()] records a free function value for the zero function. *)
 Definition ops_all_cancel : list op :=
@@ -23,22 +23,22 @@ Definition ops_all_cancel : list op :=
     F = Function(is_leaf=False, decomposition_dict={f1: 1, f2: 0}); F.oracle(x)] gives the non-differentiable
     LEAF [f1] a second function value at [x]. *)
 Definition ops_ctor_zero_weight : list op :=
-  [NewPoint; NewLeaf false; NewLeaf true; Oracle 0%nat [(0%nat, 1%Q)];
-   Direct [(0%nat, 1%Q); (1%nat, 0%Q)] false; Oracle 2%nat [(0%nat, 1%Q)]].
+  [NewPoint; NewLeaf false; NewLeaf true; Oracle 0%nat (PVar 0);
+   Direct [(0%nat, 1%Q); (1%nat, 0%Q)] false; Oracle 2%nat (PVar 0)].
 
 (** F-C07b: [f.oracle(0*y); f.oracle(0*y)] records two samples at the point [{}] with different values. *)
 Definition ops_zero_query : list op :=
-  [NewPoint; NewLeaf true; Oracle 0%nat [(0%nat, 0%Q)]; Oracle 0%nat [(0%nat, 0%Q)]].
+  [NewPoint; NewLeaf true; Oracle 0%nat (PScal (SNum 0) (PVar 0)); Oracle 0%nat (PScal (SNum 0) (PVar 0))].
 
 (** Regression sequences (the triggers of the repaired F-C07a): [f1.oracle(x); F = f1 + f2 - f2; F.oracle(x)]
     with [f1] non-differentiable / differentiable.  With the current construction they are accepted by the
     guard and keep the invariant; with the construction before 5162ea4 they break it ([step_old]). *)
 Definition ops_cancel_nondiff : list op :=
-  [NewPoint; NewLeaf false; NewLeaf true; Oracle 0%nat [(0%nat, 1%Q)];
-   Combine [(0%nat, 1%Q); (1%nat, 1%Q); (1%nat, (-1)%Q)]; Oracle 2%nat [(0%nat, 1%Q)]].
+  [NewPoint; NewLeaf false; NewLeaf true; Oracle 0%nat (PVar 0);
+   Combine [(0%nat, 1%Q); (1%nat, 1%Q); (1%nat, (-1)%Q)]; Oracle 2%nat (PVar 0)].
 Definition ops_cancel_diff : list op :=
-  [NewPoint; NewLeaf true; NewLeaf true; Oracle 0%nat [(0%nat, 1%Q)];
-   Combine [(0%nat, 1%Q); (1%nat, 1%Q); (1%nat, (-1)%Q)]; Oracle 2%nat [(0%nat, 1%Q)]].
+  [NewPoint; NewLeaf true; NewLeaf true; Oracle 0%nat (PVar 0);
+   Combine [(0%nat, 1%Q); (1%nat, 1%Q); (1%nat, (-1)%Q)]; Oracle 2%nat (PVar 0)].
 
 Definition step_old (s : state) (o : op) : state :=
   match o with
@@ -336,4 +336,76 @@ Proof.
   - cbn [fst snd]. destruct (find_pt_Some _ _ _ _ Hfp) as (x0 & H1 & H2). exists x0, g0. auto.
   - pose proof (oracle_returns_recorded s f p Hf Hq) as H. cbv zeta in H.
     destruct (oracle s f p) as [s' [g v]]. cbn [fst snd] in *. destruct H as (x0 & H1 & H2). exists x0, g. auto.
+Qed.
+
+(** ** Lookup by raw dictionary = lookup by vector equality, for points in pruned normal form.
+    [_is_already_evaluated_on_point] compares decomposition dictionaries.  For two dictionaries with unique
+    keys and NO explicit zero coefficient this is the same as asking whether the two points are the same
+    vector under every valuation of the leaf points in every inner-product space.  (Without the normal
+    form it is not: [{y: 0}] and [{}] are the same vector and different dictionaries -- F-C07b.)  The
+    normal-form hypothesis is discharged for recorded points by the invariant, for query points by the
+    guard and, on the implementation, by the correspondence check (every Point handed to
+    oracle / gradient / value / add_point has the decomposition [pt] of what was written). *)
+Lemma dict_eqb_dsum (val : nat -> R) (a b : pdict) :
+  pND a -> pND b -> dict_eqb Nat.eqb a b = true -> dsum nat val a = dsum nat val b.
+Proof.
+  intros Na Nb He.
+  pose proof (proj1 (dict_eqb_char nat Nat.eqb nat_eqb_spec a b Na Nb) He) as Hc.
+  rewrite (dsum_split nat Nat.eqb nat_eqb_spec val a b Na Nb).
+  assert (Hf : filter (fun '(k, _) => negb (mem Nat.eqb k a)) b = []).
+  { destruct (filter (fun '(k, _) => negb (mem Nat.eqb k a)) b) as [|[k v] l] eqn:Hfl; [reflexivity|exfalso].
+    assert (Hin : In (k, v) (filter (fun '(k, _) => negb (mem Nat.eqb k a)) b)) by (rewrite Hfl; left; reflexivity).
+    apply filter_In in Hin as [Hin Hm]. apply negb_true_iff in Hm.
+    apply (In_lookup nat Nat.eqb nat_eqb_spec k v b Nb) in Hin. specialize (Hc k). rewrite Hin in Hc.
+    unfold mem in Hm. destruct (lookup Nat.eqb k a); [discriminate|]. exact Hc. }
+  rewrite Hf. cbn [dsum]. rewrite Rplus_0_r.
+  assert (Hg : forall l, (forall k v, In (k, v) l -> In (k, v) a) ->
+                 fold_right (fun '(k, _) acc => get nat Nat.eqb k b * val k + acc) 0 l = dsum nat val l).
+  { induction l as [|[k v] l IH]; intros Hl; cbn [fold_right dsum]; [reflexivity|].
+    rewrite IH by (intros k' v' H'; apply Hl; right; exact H'). f_equal. f_equal.
+    pose proof (In_lookup nat Nat.eqb nat_eqb_spec k v a Na (Hl k v (or_introl eq_refl))) as Hla.
+    specialize (Hc k). rewrite Hla in Hc. unfold get. destruct (lookup Nat.eqb k b) as [vb|]; [|contradiction].
+    symmetry. apply Qeq_eqR. exact Hc. }
+  symmetry. apply Hg. auto.
+Qed.
+
+Lemma ip_indicator (d : pdict) (k : nat) :
+  pND d -> @ip R1 (fun j => if Nat.eqb j k then 1 else 0) 1 d = get nat Nat.eqb k d.
+Proof.
+  intros Nd. unfold ip. rewrite inner_evalP. unfold get.
+  induction d as [|[j q] d IH]; cbn [dsum lookup]; [reflexivity|].
+  destruct (NoDupKeys_cons_inv j q d Nd) as [Hni Nd'].
+  rewrite (IH Nd'). cbn [inner R1]. destruct (Nat.eqb_spec k j) as [->|Hne].
+  - rewrite Nat.eqb_refl.
+    assert (Hl : lookup Nat.eqb j d = None) by (apply (lookup_None nat Nat.eqb nat_eqb_spec); exact Hni).
+    rewrite Hl. lra.
+  - destruct (Nat.eqb_spec j k) as [->|_]; [congruence|]. lra.
+Qed.
+
+Theorem lookup_is_vector_equality (a b : pdict) :
+  pND a -> pND b -> allnz nat a = true -> allnz nat b = true ->
+  (dict_eqb Nat.eqb a b = true <-> forall (E : ips) (rho : nat -> E), veq (evalP rho a) (evalP rho b)).
+Proof.
+  intros Na Nb Za Zb. split.
+  - intros He E rho w. rewrite !inner_evalP. apply dict_eqb_dsum; assumption.
+  - intros Hv. apply (dict_eqb_char nat Nat.eqb nat_eqb_spec a b Na Nb). intros k.
+    pose proof (Hv R1 (fun j => if Nat.eqb j k then 1 else 0) 1) as Hk.
+    change (@ip R1 (fun j => if Nat.eqb j k then 1 else 0) 1 a = @ip R1 (fun j => if Nat.eqb j k then 1 else 0) 1 b) in Hk.
+    rewrite !ip_indicator in Hk by assumption. unfold get in Hk.
+    destruct (lookup Nat.eqb k a) as [va|] eqn:Ha, (lookup Nat.eqb k b) as [vb|] eqn:Hb; unfold oeq.
+    + apply eqR_Qeq. exact Hk.
+    + exfalso. apply (lookup_Some_In nat Nat.eqb nat_eqb_spec) in Ha.
+      apply (Q2R_nonzero va (allnz_In nat a k va Za Ha)). exact Hk.
+    + exfalso. apply (lookup_Some_In nat Nat.eqb nat_eqb_spec) in Hb.
+      apply (Q2R_nonzero vb (allnz_In nat b k vb Zb Hb)). symmetry. exact Hk.
+    + exact I.
+Qed.
+
+(** [+] and [-] of the Point algebra return normal forms: no explicit zero, unique keys *)
+Lemma pt_normal_form a b :
+  allnz nat (pt (PAdd a b)) = true /\ allnz nat (pt (PSub a b)) = true /\
+  pND (pt (PAdd a b)) /\ pND (pt (PSub a b)).
+Proof.
+  assert (W : forall t, pND (pt t)) by (intros t; apply compileP_wf; intros v; apply pND_single).
+  split; [apply allnz_prune|]. split; [apply allnz_prune|]. split; apply W.
 Qed.
